@@ -9,6 +9,7 @@ import (
 	"strings"
 	"sync"
 	"sync/atomic"
+	"time"
 
 	"github.com/gofiber/fiber/v3"
 	fiberlog "github.com/gofiber/fiber/v3/log"
@@ -27,8 +28,9 @@ import (
 // safe-method requests always execute. Nothing depends on time (Lifetime 30 min).
 
 const (
-	raceGoroutines = 64
-	raceKeys       = 8
+	raceGoroutines    = 64
+	raceKeys          = 8
+	raceRoundWatchdog = 60 * time.Second
 )
 
 type raceAnswer struct {
@@ -42,7 +44,12 @@ type raceAnswer struct {
 
 func runRace(e *ev.Env) {
 	fiberlog.SetOutput(io.Discard)
+	skip := false
 	e.Cases("hammer", e.N(6, 40), func(c *ev.Case) {
+		if skip {
+			e.Stat("race.cases_skipped_after_wedge", 1)
+			return
+		}
 		r := c.R
 		failFirst := r.Chance(1, 3)
 		keep := r.Bool()
@@ -99,6 +106,7 @@ func runRace(e *ev.Env) {
 		var mu sync.Mutex
 		var answers []raceAnswer
 		var freeBad atomic.Int64
+		wedged := false
 		for round := 0; round < rounds; round++ {
 			start := make(chan struct{})
 			var wg sync.WaitGroup
@@ -131,7 +139,23 @@ func runRace(e *ev.Env) {
 				}()
 			}
 			close(start)
-			wg.Wait()
+			done := make(chan struct{})
+			go func() { wg.Wait(); close(done) }()
+			select {
+			case <-done:
+			case <-time.After(raceRoundWatchdog):
+				// Generous real-time watchdog (a round takes milliseconds): not a verdict (DESIGN R2);
+				// the exact deadlock verdict is the vt scheduler's. The stuck goroutines are abandoned.
+				e.Inconclusive(fmt.Sprintf("idem.race: round %d of %s did not finish within %v of real time (goroutines wedged in the middleware?)", round, c.ID, raceRoundWatchdog))
+				e.Stat("race.rounds_wedged", 1)
+				wedged, skip = true, true
+			}
+			if wedged {
+				break
+			}
+		}
+		if wedged {
+			return // answers are still being appended by abandoned goroutines
 		}
 		e.Eval(len(answers))
 		e.Stat("race.requests", int64(len(answers)))
